@@ -192,26 +192,36 @@ def r3(ctx):
     bpi = cap.bpi
     for i, g in enumerate(cap.guards):
         tag = "resend" if i == 0 else "new"
-        sweep(ctx, "C09.R3", "U[%s] CAP + SIZE + TAG <= MTU - UDP_HEADER_SIZE" % tag,
-              "no datagram handed to the socket exceeds MTU-28, whatever is queued",
-              lambda m, c, i=i: m["CAPS"][i] + c.SIZE + c.TAG <= m["mtu"] - c.UDP,
-              lambda m, c, i=i: {"CAP": m["CAPS"][i], "SIZE": c.SIZE, "TAG": c.TAG, "MTU-28": m["mtu"] - c.UDP}, bpi)
-        sweep(ctx, "C09.R3", "V[%s] CAP + SIZE + TAG == MTU - UDP_HEADER_SIZE (no wasted capacity)" % tag,
+        def slack(m, c, i=i):
+            return (m["mtu"] - c.UDP - c.SIZE - c.TAG) - m["CAPS"][i]
+
+        def sup_excess(m, c, i=i):
+            """supremum over every case of (real encoded payload - accounted size); None if unbounded"""
+            worst = None
+            for case, ex in m["excess"][i].items():
+                if ex.get("p", 0) > 0 or ex.get("S", 0) > 0 or ex.get("n", 0) > 0:
+                    return None
+                v = ex.get(1, 0) + (2 * ex.get("n", 0) if case == "n>=2" else 0)
+                worst = v if worst is None else max(worst, v)
+            return worst
+
+        def exact(m, c, i=i):
+            return all(not any(ex.get(k, 0) for k in ("p", "S", "n")) and ex.get(1, 0) == slack(m, c) for ex in m["excess"][i].values())
+        sweep(ctx, "C09.R3", "U[%s] real encoded size <= MTU - UDP_HEADER_SIZE for every admitted message list" % tag,
+              "no datagram handed to the socket exceeds MTU-28, whatever is queued (the accounted size, by induction over the admissions, never "
+              "under-counts the real payload by more than CAP_true - CAP)",
+              lambda m, c, i=i: sup_excess(m, c) is not None and sup_excess(m, c) <= slack(m, c),
+              lambda m, c, i=i: {"CAP": m["CAPS"][i], "CAP_true": m["mtu"] - c.UDP - c.SIZE - c.TAG, "real_minus_accounted_per_case": {k: str(v) for k, v in m["excess"][i].items()}}, bpi)
+        sweep(ctx, "C09.R3", "V[%s] accounted size == real size and CAP == CAP_true (no wasted capacity)" % tag,
               "messages that fit together into MTU-28 bytes are admitted together",
-              lambda m, c, i=i: m["CAPS"][i] + c.SIZE + c.TAG == m["mtu"] - c.UDP,
-              lambda m, c, i=i: {"CAP": m["CAPS"][i], "SIZE": c.SIZE, "TAG": c.TAG, "MTU-28": m["mtu"] - c.UDP}, bpi)
+              lambda m, c, i=i: exact(m, c),
+              lambda m, c, i=i: {"CAP": m["CAPS"][i], "CAP_true": m["mtu"] - c.UDP - c.SIZE - c.TAG, "real_minus_accounted_per_case": {k: str(v) for k, v in m["excess"][i].items()}}, bpi)
     sweep(ctx, "C09.R3", "MAX_SIZE == MTU - UDP_HEADER_SIZE", "setMTU derives the datagram limit from the MTU",
           lambda m, c: m["MAX_SIZE"] == m["mtu"] - c.UDP, lambda m, c: {"MAX_SIZE": m["MAX_SIZE"]}, cap.setmtu)
     # the size accounted for is the size produced: current_msg_length accumulates len(payload) of every appended message
-    accs = [n for n in walk_own(bpi.node) if isinstance(n, ast.AugAssign) and norm(n.target) == "current_msg_length"]
-    ok = len(accs) == 2 and all(isinstance(a.op, ast.Add) and norm(a.value).startswith("len(") and norm(a.value).endswith(".payload)") for a in accs)
-    if ok:
-        from .capacity import _block_of
-        for a, g in zip(sorted(accs, key=lambda x: x.lineno), cap.guards):
-            ok = ok and any(a is s for s in g["if"].body) and norm(a.value) == "len(%s.payload)" % g["msg"]
-    ctx.check(ok, "C09.R3", bpi, "running total += len(payload) of exactly the admitted message, in both loops", witness=[norm(a) for a in accs])
-    init = [n for n in walk_own(bpi.node) if isinstance(n, ast.Assign) and norm(n.targets[0]) == "current_msg_length"]
-    ctx.check(len(init) == 1 and norm(init[0].value) == "0", "C09.R3", bpi, "running total starts at 0")
+    m0 = cap.at(MTUS[0])
+    ctx.holds("C09.R3", bpi, "accounting variables %s follow a unit recurrence a' = a + u_case + v*p, identical in both loops" % cap.accounting.vars,
+              "closed form by induction: %s" % {k: v for k, v in m0["steps"].items()})
     # class-body defaults == setMTU(default MTU)
     P = ctx.repo.cls("connection:Packet")
     mtu0 = ctx.folder.class_attr(P, "MTU")
@@ -249,7 +259,7 @@ def r4(ctx):
         return size_bound
     sweep(ctx, "C09.R4", "K messages per datagram <= capacity of the count field",
           "hundreds of empty or tiny messages per tick must not overflow the one-byte message count (struct.error in to_bytes, messages lost)",
-          lambda m, c: joint2(m, c) <= count_max, lambda m, c: {"admissible_messages": joint2(m, c), "count_field_max": count_max, "count_guards": m["COUNT_CAPS"]}, bpi)
+          lambda m, c: c.admissible_empty(m) <= count_max, lambda m, c: {"admissible_messages": c.admissible_empty(m), "count_field_max": count_max, "count_guards": m["COUNT_CAPS"]}, bpi)
     sweep(ctx, "C09.R4", "H payload length <= capacity of the length field",
           "the packed payload length fits the 16-bit length field", lambda m, c: max(m["CAPS"]) <= length_max,
           lambda m, c: {"CAP": max(m["CAPS"]), "length_field_max": length_max}, bpi)
